@@ -38,7 +38,7 @@ func init() {
 		Level: "exploration",
 		Rule: "Each case is one history on the real app (1-2 EVM chains, 4-6 validators): natural bring-up (initial compass upload attested), then a seed-determined list of attestation rounds. " +
 			"A round = one queued message (UploadSmartContract, UpdateValset, SubmitLogicCall via scheduler job, UploadUserSmartContract, CompassHandover after a governance compass upgrade) driven through estimates, signatures, relay and evidence by >= 2/3 of the shares, " +
-			"with a proof transaction of a chosen class: faithful (all / shorter prefix of signatures, late signatures, EIP-1559, older valset), one or several corruptions out of a catalogue of 36 field- and byte-level corruptions, receipt status 0 / pre-Byzantium root / missing receipt, " +
+			"with a proof transaction of a chosen class: faithful (all / shorter prefix of signatures, late signatures, EIP-1559, older valset), one or several corruptions out of a catalogue of 39 field- and byte-level corruptions (values changed, bytes flipped / cut / appended, and INSERTIONS that keep head and tail of the data intact: foreign bytes at a word boundary, the tail a second time, for a compass deployment other constructor arguments between the bytecode and the expected ones), receipt status 0 / pre-Byzantium root / missing receipt, " +
 			"a transaction accepted earlier (same call data for a second message, other message, same block for two messages), relayer naming a non-existent valset; " +
 			"Before a used transaction is handed in again on the real chain, the re-submission is also played on forks of the latest state (throw-away contexts; message-server handlers for estimates, signatures, relay, evidence + the consensus end-blocker, judged like a real block) at later heights/times: " +
 			"for update_valset a fresh re-publication of the live snapshot (identical call data: same relayer, estimate, signers) at the next block and at fixed distances from the block the tx was accepted in (300 blocks .. 10 years, each period the code base knows hit exactly and one past) + 2 seed-drawn distances up to 10^9 blocks; for the identical initial deployment of a second chain at 10 heights within the life of the queued message. " +
@@ -54,7 +54,8 @@ func init() {
 		Cases: cases,
 		Run:   run,
 		MinCounters: []string{"rounds_attested", "accepted_valid_proofs", "rejected_invalid_proofs", "effects_after_valid_proof", "accepted/" + actUpload, "accepted/" + actValset, "accepted/" + actSLC, "accepted/" + actUser, "accepted/" + actHandover,
-			"rounds_forged_success_receipt_reported_first", "rounds_used_tx_resubmitted_later_identical_calldata"},
+			"rounds_forged_success_receipt_reported_first", "rounds_used_tx_resubmitted_later_identical_calldata",
+			"rounds_calldata_with_inserted_bytes", "rounds_upload_bytes_inserted_between_bytecode_and_constructor_args"},
 		Workers: 16, TimeoutS: 1500,
 	})
 }
